@@ -287,6 +287,8 @@ def plan(tier, seed):
         cfgs.append(dict(shape="splitter", n=3, conn=conn, N=n1, gaps=["S", 1], flows=[0, 1], sizes=[1]))
     for n in (2, 3, 4):
         cfgs.append(dict(shape="hub", n=n, N=n1, gaps=["S", 1], flows=list(range(n)), sizes=[1]))
+    for probs in ([0.5, 0.5], [0.2, 0.3], [2, 1], [1, 0], [0.25, 0.25, 0.25]):
+        cfgs.append(dict(shape="randdemux", probs=probs, N=3))
     # generator -> element -> sink
     for a in ("port", "portB", "wire", "tb", "sp", "wfq", "drr", "vc"):
         for mode in ((1, 1, 1), (0, 0, 1), (1, 1, 0)):
@@ -301,7 +303,71 @@ def plan(tier, seed):
                      "generator pipelines with <=%d draws per generator" % (n1, len(SINGLE) + 2, len(SINGLE) ** 2 + 2, n1))}
 
 
+def exec_randdemux(ch, cfg):
+    """RandomDemux: every packet leaves through exactly one output, one that has a positive weight; the weights are
+    relative (they need not sum to 1).  The draw is owned by the harness whichever seam the module uses."""
+    import onl.netdev.demux as dm
+    res = Result()
+    probs = cfg["probs"]
+    log = []
+
+    class Rec:
+        def __init__(self, i):
+            self.i = i
+
+        def put(self, p):
+            log.append((self.i, p))
+    outs = [Rec(i) for i in range(len(probs))]
+    draws = []
+
+    def fake_choices(population, weights=None, cum_weights=None, k=1):
+        idx = [i for i, w in enumerate(weights) if w > 0]
+        c = idx[ch.choose(len(idx), lambda c: "draw selects output %d" % idx[c])]
+        draws.append(c)
+        return [population[c]]
+
+    def fake_random():
+        v = [0.05, 0.45, 0.95][ch.choose(3, lambda c: "uniform draw %s" % [0.05, 0.45, 0.95][c])]
+        draws.append(v)
+        return v
+    saved = {}
+    for name, fn in (("choices", fake_choices), ("random", fake_random), ("uniform", lambda a, b: a + (b - a) * fake_random())):
+        if hasattr(dm, name) and callable(getattr(dm, name)):
+            saved[name] = getattr(dm, name)
+            setattr(dm, name, fn)
+    saved_mod = (random.random, random.choices)
+    random.random, random.choices = fake_random, fake_choices
+    res.ev("C08.noraise"); res.ev("C08.once", cfg["N"])
+    pkts = []
+    try:
+        d = dm.RandomDemux(outs, probs)
+        for i in range(cfg["N"]):
+            from onl.packet import Packet
+            p = Packet(0, 1, i, flow_id=i % 2)
+            pkts.append(p)
+            d.put(p)
+    except BaseException as e:  # noqa
+        from mc.net import _where
+        res.bad("C08.noraise", "RandomDemux:%s@%s" % (type(e).__name__, _where(e)), repr(e)[:100])
+    finally:
+        for name, fn in saved.items():
+            setattr(dm, name, fn)
+        random.random, random.choices = saved_mod
+    res.digest = (tuple(probs), tuple(draws), tuple(i for i, p in log))
+    res.nontrivial = True
+    if not res.violations:
+        if not draws:
+            res.bad("C08.account", "RandomDemux:draw-not-owned-by-the-harness", "no draw reached the harness (another random seam?)")
+        elif [p for i, p in log] != pkts:
+            res.bad("C08.once", "RandomDemux:%s" % ("packet-lost" if len(log) < len(pkts) else "packet-duplicated-or-reordered"), "weights %r draws %r: %d packets in, outputs %r" % (probs, draws, len(pkts), [i for i, p in log]))
+        elif any(probs[i] <= 0 for i, p in log):
+            res.bad("C08.account", "RandomDemux:output-with-zero-weight-used", "weights %r outputs %r" % (probs, [i for i, p in log]))
+    return res
+
+
 def execute(ch, cfg):
+    if cfg["shape"] == "randdemux":
+        return exec_randdemux(ch, cfg)
     if cfg["shape"] == "gen":
         return exec_gen(ch, cfg)
     res = Result()
